@@ -148,7 +148,7 @@ def _cmp(viol, key, what, got, exp, term, extra=None):
     got = np.asarray(got)
     if got.shape != exp.shape or not np.allclose(got, exp, atol=TOL, rtol=0):
         err = float(np.max(np.abs(got - exp))) if got.shape == exp.shape else -1.0
-        viol.append(Violation(key=f"{key}:{what}", detail=f"{what} differs from matrix arithmetic on the operands (max err {err:.3g}) for {ot.show(term)}",
+        viol.append(Violation(key=f"{what}:differs:{key}", detail=f"{what} differs from matrix arithmetic on the operands (max err {err:.3g}) for {ot.show(term)}",
                               replay=dict({"term": term}, **(extra or {}))))
         return False
     return True
@@ -208,11 +208,11 @@ def run(tier, seed):
             m["matrix"] = np.asarray(qp.matrix(expr, wire_order=W))
         except qp.exceptions.MatrixUndefinedError:
             if expr.has_matrix:
-                viol.append(Violation(key=f"{_shape_key(t)}:matrix-reported-but-undefined", detail=f"has_matrix but qp.matrix raises for {sig}",
+                viol.append(Violation(key=f"qp.matrix:reported-but-undefined:{_shape_key(t)}", detail=f"has_matrix but qp.matrix raises for {sig}",
                                       replay={"term": t}))
             stats["matrix_undefined"] += 1
         except Exception as e:
-            viol.append(Violation(key=f"{_shape_key(t)}:matrix-raises:{type(e).__name__}", detail=f"qp.matrix raised {type(e).__name__}: {e} for {sig}",
+            viol.append(Violation(key=f"qp.matrix:raises:{type(e).__name__}:{_shape_key(t)}", detail=f"qp.matrix raised {type(e).__name__}: {e} for {sig}",
                                   replay={"term": t, "wire_order": W}))
         # TRACE observations: the objects PennyLane returned
         outs = [("built", expr, wpos, None)]
@@ -280,7 +280,7 @@ def run(tier, seed):
             n_exact += 1
             if clause != "ok":
                 good = False
-                viol.append(Violation(key=f"{key}:{what}:{clause}", detail=f"{what} of {ot.show(t)} is {rp}: TLC verdict {clause}",
+                viol.append(Violation(key=f"{what}:{clause}:{key}", detail=f"{what} of {ot.show(t)} is {rp}: TLC verdict {clause}",
                                       replay={"term": t, "output": rp, "program_a": cases[ci]["a"], "program_b": cases[ci]["bs"][si]}))
         if ci not in emitted:
             raise lib.MachineryError(f"no exact matrix emitted for {ot.show(t)}")
